@@ -93,6 +93,7 @@ var nBytes = n.Bytes()
 var nMinus1 = new(big.Int).Sub(n, one)
 var nMinus1Bytes = nMinus1.Bytes()
 var zBytes = internal.GetZBytes()
+var zero32 [32]byte
 
 // TestPrivateKey tests if the priv has at most 32 bytes, and if it is in range [1, n-2]
 // Returns the length difference if longer than 32, or -1 if not in the range,
@@ -104,12 +105,14 @@ func TestPrivateKey(priv []byte) int {
 	if l > 0 {
 		return l
 	}
-	if l < 0 {
-		return 0
-	}
 
-	cmp := utils.ConstantTimeCmp(priv, nMinus1Bytes, 32)
-	if cmp == -1 {
+	// left-pad shorter encodings so that zero is rejected whatever its length
+	var buf [32]byte
+	copy(buf[32-len(priv):], priv)
+
+	cmp := utils.ConstantTimeCmp(buf[:], nMinus1Bytes, 32)
+	nonZero := utils.ConstantTimeCmp(buf[:], zero32[:], 32)
+	if cmp == -1 && nonZero == 1 {
 		return 0
 	}
 
